@@ -50,6 +50,8 @@ class Template:  # pylint: disable=too-few-public-methods
         self.type_uid = None
         self.notes = {}
         self.pre = {}  # attr -> canonical value shown by the getter just before the first close
+        self.given = {}  # attr -> initial value assigned to a None attribute before the first close
+        self.unreadable_after = {}  # attr -> text: assigning the initial value made the file unreadable
         self.reopen_differs = {}  # attr -> text: the value before the first close is not what the re-opened entity shows
 
 
@@ -60,27 +62,42 @@ def _try_get(ent, attr):
         return False, exc
 
 
-def build_template(target, directory) -> Template:
+def build_template(target, directory, slim=False) -> Template:
     """Two passes: an initial value given to a None attribute before the first close must read back after re-opening;
     where it does not (the attribute is not stored, or stored where the reader does not look) the template is rebuilt
     without it, so that token 0 (None) is what both the reader and the raw file show."""
-    tpl = _build_template(target, directory, frozenset())
+    tpl = _build_template(target, directory, frozenset(), slim)
+    if tpl.error and tpl.error.startswith("the fixture file cannot be re-opened"):
+        # an initial value given to a None attribute made the file unreadable: build the fixture without any of them
+        # (the attribute is then exercised from None and the replay shows which assignment does it)
+        why = tpl.error
+        given = sorted(tpl.given)
+        culprits = {}
+        for attr in given:
+            one = _build_template(target, directory, frozenset(set(target["attrs"]) - {attr}), slim)
+            if one.error and one.error.startswith("the fixture file cannot be re-opened"):
+                culprits[attr] = (f"after {W.target_name(target)}.{attr} = {W.short(one.given.get(attr), 60)} on the stored entity "
+                                  f"(before the first close) " + one.error)
+        tpl = _build_template(target, directory, frozenset(target["attrs"]), slim)
+        tpl.notes["*"] = "fixture built without initial values for None attributes: with them " + why
+        tpl.unreadable_after = culprits
+        return tpl
     lost = frozenset(a for a, n in tpl.notes.items() if n.startswith("the initial value assigned"))
     if lost and not tpl.error:
         notes = dict(tpl.notes)
-        tpl = _build_template(target, directory, lost)
+        tpl = _build_template(target, directory, lost, slim)
         for a in lost:
             tpl.notes[a] = notes[a] + "; fixture rebuilt without it"
     return tpl
 
 
-def _build_template(target, directory, no_base) -> Template:  # pylint: disable=too-many-branches,too-many-statements
+def _build_template(target, directory, no_base, slim=False) -> Template:  # pylint: disable=too-many-branches,too-many-statements
     """Create the file with ONE stored instance (create, close), re-open it, derive the domains from the values the
     getters of the re-opened entity return, and check on a scratch copy that each domain value is accepted."""
     from geoh5py import Workspace
     tpl = Template()
-    name = W.target_name(target)
-    fx = W.Fixture(target)
+    name = W.target_name(target) + ("~slim" if slim else "")
+    fx = W.Fixture(target, slim=slim)
     tpl.fx = fx
     path = os.path.join(directory, f"tpl_{name}.geoh5")
     for p in (path,):
@@ -109,6 +126,7 @@ def _build_template(target, directory, no_base) -> Template:  # pylint: disable=
                 if base is not None:
                     try:
                         setattr(ent, attr, W.materialise(base, ws))
+                        tpl.given[attr] = base
                     except Exception as exc:  # pylint: disable=broad-except
                         tpl.notes[attr] = f"initial value refused: {type(exc).__name__}: {exc}"
             for attr in target["attrs"]:
@@ -124,7 +142,11 @@ def _build_template(target, directory, no_base) -> Template:  # pylint: disable=
         if tpl.error:
             return tpl
         # ---- the stored entity: fresh workspace
-        ws = Workspace(path, mode="r+")
+        try:
+            ws = Workspace(path, mode="r+")
+        except Exception as exc:  # pylint: disable=broad-except
+            tpl.error = f"the fixture file cannot be re-opened: {type(exc).__name__}: {exc}"
+            return tpl
         try:
             ent = fx.fetch(ws)
             if ent is None:
@@ -150,6 +172,8 @@ def _build_template(target, directory, no_base) -> Template:  # pylint: disable=
                     v0 = W.Ref(cur.uid)
                 elif hasattr(cur, "getpixel"):
                     v0 = cur.copy()  # PIL image opened lazily on a buffer
+                elif type(cur).__name__ == "ColorMap":
+                    v0 = {"name": cur.name, "values": cur._values.copy()}  # pylint: disable=protected-access
                 else:
                     v0 = copy.deepcopy(cur)
                 if cur is None and base is not None and attr not in no_base:
@@ -159,7 +183,7 @@ def _build_template(target, directory, no_base) -> Template:  # pylint: disable=
             ws.close()
         # ---- every domain value must be accepted by the setter on a (scratch copy of the) stored entity
         for attr in list(tpl.values):
-            probe = os.path.join(directory, "probe.geoh5")
+            probe = os.path.join(directory, f"probe_{os.getpid()}.geoh5")
             shutil.copyfile(path, probe)
             ws = Workspace(probe, mode="r+")
             try:
@@ -184,23 +208,48 @@ def _build_template(target, directory, no_base) -> Template:  # pylint: disable=
     return tpl
 
 
-def template(target) -> Template:
-    name = W.target_name(target)
+PARTNER_ATTRS = {"receivers", "transmitters", "base_stations", "current_electrodes", "potential_electrodes"}
+
+
+SHARED = {"dir": None}  # directory in which the census workers leave the templates for the replay workers
+
+
+def template(target, slim=False) -> Template:
+    import pickle
+    name = W.target_name(target) + ("~slim" if slim else "")
     tpl = _TEMPLATES.get(name)
-    if tpl is None or (tpl.path is not None and not os.path.exists(tpl.path)):  # scratch directory of another process
-        _TEMPLATES[name] = build_template(target, scratch())
-    return _TEMPLATES[name]
+    if tpl is not None and (tpl.path is None or os.path.exists(tpl.path)):
+        return tpl
+    shared = SHARED["dir"]
+    pick = os.path.join(shared, f"tpl_{name}.pickle") if shared else None
+    if pick and os.path.exists(pick):
+        with open(pick, "rb") as fh:
+            tpl = pickle.load(fh)
+        if tpl.path is None or os.path.exists(tpl.path):
+            _TEMPLATES[name] = tpl
+            return tpl
+    tpl = build_template(target, shared or scratch(), slim)
+    if pick:
+        tmp = pick + f".{os.getpid()}"
+        with open(tmp, "wb") as fh:
+            pickle.dump(tpl, fh)
+        os.replace(tmp, pick)
+    _TEMPLATES[name] = tpl
+    return tpl
 
 
 def census(target):
     """json-able summary of one target (run in a worker)."""
     try:
         tpl = template(target)
+        if tpl.fx is not None and (tpl.fx.aux.get("rx1") or tpl.fx.aux.get("cur1")):
+            template(target, slim=True)
     except Exception as exc:  # pylint: disable=broad-except
         return {"target": W.target_name(target), "error": f"harness: {type(exc).__name__}: {exc}\n{traceback.format_exc()}",
-                "attrs": [], "skipped": {}, "notes": {}, "reopen_differs": {}}
+                "attrs": [], "skipped": {}, "notes": {}, "reopen_differs": {}, "unreadable_after": {}}
     return {"scratch": scratch(), "target": W.target_name(target), "error": tpl.error, "attrs": sorted(tpl.values),
             "skipped": tpl.skipped, "notes": tpl.notes, "reopen_differs": tpl.reopen_differs,
+            "unreadable_after": tpl.unreadable_after,
             "values": {a: [W.short(x, 60) for x in v] for a, v in tpl.values.items()},
             "two_valued": sorted(a for a, v in tpl.values.items() if W.same(W.canon(v[0]), W.canon(v[2])))}
 
@@ -218,6 +267,13 @@ class Run:  # pylint: disable=too-many-instance-attributes
         self.attrs = item["attrs"]
         self.k = len(self.attrs)
         self.tpl = template(self.target)
+        if self.tpl.fx.aux.get("rx1") or self.tpl.fx.aux.get("cur1"):
+            # survey classes: the spare partners are needed only by the windows that bind a partner attribute; every
+            # other window runs on a fixture without them (a fresh reader loads the whole tree after every step)
+            if not PARTNER_ATTRS & set(self.attrs):
+                slim = template(self.target, slim=True)
+                if slim.path and all(a in slim.values for a in self.attrs):
+                    self.tpl = slim
         self.fx = self.tpl.fx
         self.graph = GRAPH[item["graph"]]["trans"]
         self.viol = []
@@ -239,6 +295,10 @@ class Run:  # pylint: disable=too-many-instance-attributes
         self.unbound = [a for a in self.target["attrs"] if a not in self.attrs
                         and self.target["stored_as"].get(a, "").startswith("attribute:")]
         self.unbound_live, self.unbound_reader = {}, {}
+        self.unreadable = None
+        self.deferred = self.target.get("variant") == "concatenated"
+        self.confirmed = [0] * len(self.attrs)
+        self.resumed = False
 
     # ------------------------------------------------------------------ helpers
     def case(self):
@@ -253,7 +313,7 @@ class Run:  # pylint: disable=too-many-instance-attributes
         inherit it) + the kind of stored thing"""
         attr = self.attrs[s]
         definer = self.target["defined_in"].get(attr, self.target["cls"]).split(".")[-1]
-        return f"{definer}.{attr}@{self.target['kind']}"
+        return f"{definer}.{attr}@{self.target['kind']}" + ("~concatenated" if self.target.get("variant") == "concatenated" else "")
 
     def open_ws(self):
         self.ws = self.Workspace(self.work, mode="r+")
@@ -263,13 +323,28 @@ class Run:  # pylint: disable=too-many-instance-attributes
 
     def close_ws(self):
         self.ws.close()
+        self.closed = (self.ws, self.ent)  # what a caller who keeps his objects still holds
         self.ws = None
         self.ent = None
+
+    def resume_ws(self):
+        """ws.open() on the SAME Workspace instance; the entity object of the earlier session is kept"""
+        self.ws, self.ent = self.closed
+        self.ws.open()
 
     # ------------------------------------------------------------------ observation
     def observe(self, is_open):
         """-> (live values or None, values seen by a fresh reader, raw node)"""
         live = None
+        if is_open and self.deferred:
+            # concatenated storage is written back when the workspace is closed (Concatenator tables are flushed by
+            # Workspace.close): while the session is open only the live side is observable; the file is compared at
+            # every Close and after every Open
+            live = []
+            for a in self.attrs:
+                ok, v = _try_get(self.ent, a)
+                live.append(W.canon(W.normalise(self.target["cls"], a, v)) if ok else ("getter-raises", type(v).__name__, str(v)[:80]))
+            return live, None, None
         if is_open:
             live = []
             for a in self.attrs:
@@ -287,7 +362,11 @@ class Run:  # pylint: disable=too-many-instance-attributes
             with h5py.File(self.work, "r") as fh:
                 node = self.fx.raw(fh, self.tpl.type_uid)
         reader = []
-        ws2 = self.Workspace(src, mode="r")
+        try:
+            ws2 = self.Workspace(src, mode="r")
+        except Exception as exc:  # pylint: disable=broad-except
+            self.unreadable = f"{type(exc).__name__}: {str(exc)[:120]}"
+            return live, [("file-unreadable",)] * self.k, node
         try:
             ent2 = self.fx.fetch(ws2)
             for a in self.attrs:
@@ -308,6 +387,8 @@ class Run:  # pylint: disable=too-many-instance-attributes
     def raw_value(self, node, s):
         """raw content of the place where slot s is stored, or None when there is no direct mapping"""
         where = self.target["stored_as"].get(self.attrs[s], "other")
+        if self.fx.kind in ("cmap", "vmap") or self.fx.variant == "concatenated":
+            return None
         if node is None:
             return ("node-missing",)
         if where.startswith("attribute:"):
@@ -329,7 +410,7 @@ class Run:  # pylint: disable=too-many-instance-attributes
         for s in range(self.k):
             if live is not None and not self.is_token(s, lv[s], live[s]):
                 return False
-            if not self.is_token(s, st[s], reader[s]):
+            if reader is not None and not self.is_token(s, st[s], reader[s]):
                 return False
         return True
 
@@ -341,9 +422,37 @@ class Run:  # pylint: disable=too-many-instance-attributes
             exp_s = self.cv[s][st[s]] if st[s] < 3 else "<none of the domain values>"
             if live is not None and not self.is_token(s, lv[s], live[s]):
                 out.append(f"live {self.attrs[s]} = {W.short(live[s], 70)} expected token {lv[s]} = {W.short(exp_l, 70)}")
-            if not self.is_token(s, st[s], reader[s]):
+            if reader is not None and not self.is_token(s, st[s], reader[s]):
                 out.append(f"a fresh reader sees {self.attrs[s]} = {W.short(reader[s], 70)} expected token {st[s]} = {W.short(exp_s, 70)}")
         return "; ".join(out)
+
+    def twin_explains(self, prefix, reader):
+        """walk the graph TLC exported for the model with the single deviation CloseRevertsToLoaded along the specified
+        outcomes of `prefix` (whose last action is the Close that diverged): is there a CloseRevertsToLoaded edge whose
+        destination is what the reader of the closed file shows?"""
+        g = GRAPH.get(f"twin{self.k}")
+        if g is None or reader is None:
+            return False
+        z = tuple([0] * self.k)
+        cur = (z, z, True, False, z)
+        for n, (act, a, t) in enumerate(prefix):
+            if act in ("Set", "SetSame") and t == cur[0][a - 1]:
+                act = "SetSame"
+            if act == "SetSame":
+                t = cur[0][a - 1]
+            if act == "SetInvalid":
+                continue
+            cands = g["trans"].get(cur, {}).get((act, a, t), [])
+            if n == len(prefix) - 1:
+                for dst, dev, _b, _h in cands:
+                    if dev == "CloseRevertsToLoaded" and all(self.is_token(q, dst[1][q], reader[q]) for q in range(self.k)):
+                        return True
+                return False
+            nxt = [c for c in cands if c[1] == ""]
+            if not nxt:
+                return False
+            cur = nxt[0][0]
+        return False
 
     def tokens_of(self, obs, s):
         return [t for t in range(3) if W.same(obs, self.cv[s][t])]
@@ -374,7 +483,7 @@ class Run:  # pylint: disable=too-many-instance-attributes
                 if i >= len(steps):
                     # adaptive extension: one more assignment tells ForgetsPersist from PersistsBeforeStoring
                     amb = sorted(q for q, v in pending.items() if len(v) > 1)
-                    if not amb or extra >= 4:
+                    if not amb or extra >= 2 * self.k + 2:
                         break
                     amb = amb[0]
                     if not state[2]:
@@ -397,7 +506,9 @@ class Run:  # pylint: disable=too-many-instance-attributes
                     act = "SetSame"
                 if act == "SetSame":
                     t = lv[s]
-                cands = self.graph.get(state, {}).get((act, a, t))
+                # the project header IS the Workspace object: ws.open() re-reads it, so resuming is re-opening for it
+                track = "Open" if act == "Resume" and self.fx.kind == "header" else act
+                cands = self.graph.get(state, {}).get((track, a, t))
                 if not cands:
                     if deviated:
                         self.stats["cut_after_deviation"] += 1
@@ -434,9 +545,18 @@ class Run:  # pylint: disable=too-many-instance-attributes
                     self.close_ws()
                 elif act == "Open":
                     self.open_ws()
+                    self.resumed = False
+                elif act == "Resume":
+                    self.resume_ws()
+                    self.resumed = True
                 self.stats["steps"] += 1
-                now_open = is_open if act not in ("Close", "Open") else act == "Open"
+                now_open = is_open if act not in ("Close", "Open", "Resume") else act != "Close"
                 live, reader, node = self.observe(now_open)
+                if self.unreadable:
+                    self.bad(f"file-unreadable:{self.pair(s) if a else self.tname}",
+                             f"step {i} {act}({self.attrs[s] if a else ''}{', token ' + str(t) + ' = ' + W.short(self.values[s][t], 50) if act in ('Set', 'SetSame') else ''}) "
+                             f"after {[list(x) for x in steps[:i - 1]]}: a fresh Workspace on the file raises {self.unreadable}")
+                    break
                 if act in ("Set", "SetSame") and outcome != "ok":
                     self.bad(f"refused-valid:{self.pair(s)}",
                              f"step {i} {act}({self.attrs[s]}, token {t} = {W.short(self.values[s][t], 60)}) raised {detail} although the "
@@ -447,18 +567,45 @@ class Run:  # pylint: disable=too-many-instance-attributes
                     # C03 says nothing about refused assignments; the observation is counted, the behaviour ends here
                     self.stats["refused_changed_live"] += 1
                     break
+                if not hit and act == "Close" and not deviated and self.twin_explains(steps[:i], reader):
+                    kind = self.target["kind"] + ("~concatenated" if self.deferred else "")
+                    lost = [self.attrs[q] for q in range(self.k) if not self.is_token(q, state[1][q], reader[q])]
+                    self.bad(f"dev:CloseRevertsToLoaded:{kind}",
+                             f"step {i} Close() after {[list(x) for x in steps[:i - 1]]}: the session was resumed on the same "
+                             f"Workspace instance and {lost} assigned through the object kept from the earlier session; after "
+                             f"close() the file holds again what it held when the session was resumed: "
+                             + self.describe([c for c in cands if c[1] == ""][0][0], live, reader))
+                    break
+                if not hit and act == "Close" and (self.deferred or self.resumed) and reader is not None:
+                    # write-back storage: an assignment that never reaches the tables shows when the file is closed
+                    ideal = [c for c in cands if c[1] == ""][0][0]
+                    for q in range(self.k):
+                        if self.is_token(q, ideal[1][q], reader[q]):
+                            continue
+                        if self.is_token(q, self.confirmed[q], reader[q]):
+                            tag = "NoneNotPersisted" if ideal[1][q] < 3 and self.values[q][ideal[1][q]] is None else "ForgetsPersist"
+                        elif not any(W.same(reader[q], v) for v in self.cv[q]):
+                            tag = "DestroysStored"
+                        else:
+                            tag = "StoresAnotherValue"
+                        if self.resumed and not self.deferred:
+                            tag += "AfterResume"  # assigned through the object kept from the session before the resume
+                        self.bad(f"dev:{tag}:{self.pair(q)}",
+                                 f"step {i} Close() after {[list(x) for x in steps[:i - 1]]}: "
+                                 + self.describe(ideal, live, reader))
+                    break
                 if not hit:
                     ideal = [c for c in cands if c[1] == ""][0]
                     what = self.describe(ideal[0], live, reader)
                     own = act in ("Set", "SetSame") and not (
                         (live is None or self.is_token(s, ideal[0][0][s], live[s]))
-                        and self.is_token(s, ideal[0][1][s], reader[s]))
+                        and (reader is None or self.is_token(s, ideal[0][1][s], reader[s])))
                     kind = "assigned" if own else ("frame" if act in ("Set", "SetSame") else "state")
                     self.bad(f"divergence:{kind}:{act}:{self.pair(s) if a else self.tname}",
                              f"step {i} {act}({self.attrs[s] if a else ''}{', token ' + str(t) if act == 'Set' else ''}) after "
                              f"{[list(x) for x in steps[:i - 1]]}: {what}")
                     break
-                if now_open:
+                if now_open and reader is not None:
                     self.stats["unbound_scalar_checked"] += len(agree0)
                     off = sorted(a for a in agree0 if not W.same(self.unbound_live[a], self.unbound_reader.get(a)))
                     if off:
@@ -497,6 +644,8 @@ class Run:  # pylint: disable=too-many-instance-attributes
                     pending[s] = (pending[s] & tags) if s in pending else set(tags)
                     first_dev.setdefault(s, (i, act, t, self.describe([c for c in cands if c[1] == ""][0][0], live, reader)))
                 state = chosen[0]
+                if not state[2]:
+                    self.confirmed = list(state[1])  # what the closed file is known to hold
                 # raw content: the same token always has the same raw content, different tokens different content
                 for q in range(self.k):
                     rv = self.raw_value(node, q)
@@ -564,28 +713,40 @@ def replay_item(item):
 
 
 # ----------------------------------------------------------------------------------------------------------------------
+def _decode(k, code):
+    return tuple((code // 4 ** i) % 4 for i in range(k))
+
+
 def abstract(view):
-    """ToJson(vw) = [live, stored, open, want, hist] -> hashable abstract state (want / hist are constant in the
-    as-built export)"""
-    return (tuple(view[0]), tuple(view[1]), bool(view[2]))
+    """ToJson(vwc) = [K, live, stored, open, want, hist, stale, loaded] (functions over the slots as base-4 numbers)
+    -> hashable abstract state (want / hist / stale / loaded are constant in the as-built export)"""
+    k = view[0]
+    return (_decode(k, view[1]), _decode(k, view[2]), bool(view[3]))
 
 
-def load_tracking_graph(name, cfg, heap="4g"):
-    """TLC export of the as-built model -> GRAPH[name]; returns the TLCResult"""
+def abstract_full(view):
+    k = view[0]
+    return (_decode(k, view[1]), _decode(k, view[2]), bool(view[3]), bool(view[6]), _decode(k, view[7]))
+
+
+def load_tracking_graph(name, cfg, heap="4g", full_view=False):
+    """TLC export of the as-built model -> GRAPH[name]; returns the TLCResult.  full_view: the abstract state also has
+    the stale / loaded components (the Twin configurations)"""
     from . import tlc
+    abstract_fn = abstract_full if full_view else abstract
     res = tlc.run_tlc("writethrough", "WriteThrough", cfg, workers=1, heap=heap)
     if not res.ok:
         raise MachineryError(f"{cfg}: TLC reports {res.violated}\n{res.raw_tail[-1500:]}")
     g = tlc.build_graph(res.lines)
     trans = {}
     for src, dst, lab in g.edges:
-        a, b = abstract(g.states[src]), abstract(g.states[dst])
+        a, b = abstract_fn(g.states[src]), abstract_fn(g.states[dst])
         key = (lab["act"], lab["a"], lab["t"])
         lst = trans.setdefault(a, {}).setdefault(key, [])
         entry = (b, lab["dev"], lab["b"], tuple(sorted(lab["heal"])))
         if entry not in lst:
             lst.append(entry)
-    if len({abstract(v) for v in g.states.values()}) != len(g.states):
+    if len({abstract_fn(v) for v in g.states.values()}) != len(g.states):
         raise MachineryError(f"{cfg}: abstract states are not unique")
     GRAPH[name] = {"trans": trans, "states": len(g.states), "edges": len(g.edges)}
     return res
